@@ -11,70 +11,94 @@
    IdFormatBug = TRUE : the reader's lookup key is produced by formatting the decoded JSON number
               (float64) with %v while the entry was registered with the int64 - big ids miss
    QueueDrop = TRUE   : an answer enqueued on a full queue is dropped (as built on legacy SSE)
-              FALSE   : the responder waits for room (intended)                           *)
+              FALSE   : the responder waits for room (intended)
+   The connection may be lost (ConnLost): answers in flight are gone and every call still outstanding fails - "nothing" is an
+   admitted outcome only then.  Absent a configured retry nobody sends the request a second time:
+   TransportResends = TRUE : the HTTP transport silently re-sends a request whose connection died before the first byte of the
+              answer (what net/http does for requests it considers replayable) - the handler runs twice (self-test)        *)
 EXTENDS Naturals, Sequences, FiniteSets, TLC
 
-CONSTANTS NCalls, QueueCap, BigIds, IdFormatBug, QueueDrop
+CONSTANTS NCalls, QueueCap, BigIds, IdFormatBug, QueueDrop, TransportResends
 
 Calls == 1..NCalls
 
-VARIABLES st,        \* "idle" "sent" "handled" "queued" "wire" "delivered" "returned" "lost"
+VARIABLES st,        \* "idle" "sent" "handled" "queued" "wire" "delivered" "returned" "lost" "failed"
+          up,        \* the connection is up
           pending,   \* ids with a registered pending entry
           runs,      \* handler invocations per call
           queue,     \* outgoing queue of the connection
           wire,      \* emitted, not yet read by the client
           got        \* got[c] = call whose answer c received (0 = none)
 
-vars == <<st, pending, runs, queue, wire, got>>
+vars == <<st, up, pending, runs, queue, wire, got>>
 
-Init == /\ st = [c \in Calls |-> "idle"] /\ pending = {} /\ runs = [c \in Calls |-> 0]
+Init == /\ st = [c \in Calls |-> "idle"] /\ up = TRUE /\ pending = {} /\ runs = [c \in Calls |-> 0]
         /\ queue = <<>> /\ wire = <<>> /\ got = [c \in Calls |-> 0]
 
-Issue(c) == /\ st[c] = "idle"
+Issue(c) == /\ st[c] = "idle" /\ up
             /\ st' = [st EXCEPT ![c] = "sent"] /\ pending' = pending \cup {c}
-            /\ UNCHANGED <<runs, queue, wire, got>>
+            /\ UNCHANGED <<up, runs, queue, wire, got>>
 
 HandlerRun(c) == /\ st[c] = "sent"
                  /\ st' = [st EXCEPT ![c] = "handled"] /\ runs' = [runs EXCEPT ![c] = @ + 1]
-                 /\ UNCHANGED <<pending, queue, wire, got>>
+                 /\ UNCHANGED <<up, pending, queue, wire, got>>
 
 Enqueue(c) ==
-  /\ st[c] = "handled"
+  /\ st[c] = "handled" /\ up
   /\ IF Len(queue) < QueueCap
        THEN queue' = Append(queue, c) /\ st' = [st EXCEPT ![c] = "queued"]
        ELSE /\ QueueDrop                             \* otherwise the responder waits (not enabled)
             /\ st' = [st EXCEPT ![c] = "lost"] /\ UNCHANGED queue
-  /\ UNCHANGED <<pending, runs, wire, got>>
+  /\ UNCHANGED <<up, pending, runs, wire, got>>
 
 WriterEmit ==
-  /\ queue # <<>>
+  /\ queue # <<>> /\ up
   /\ wire' = Append(wire, Head(queue)) /\ queue' = Tail(queue)
   /\ st' = [st EXCEPT ![Head(queue)] = "wire"]
-  /\ UNCHANGED <<pending, runs, got>>
+  /\ UNCHANGED <<up, pending, runs, got>>
 
 KeyMatches(c) == ~(IdFormatBug /\ c \in BigIds)
 
 ClientDispatch ==
-  /\ wire # <<>>
+  /\ wire # <<>> /\ up
   /\ LET c == Head(wire) IN
      /\ wire' = Tail(wire)
      /\ IF c \in pending /\ KeyMatches(c)
           THEN st' = [st EXCEPT ![c] = "delivered"] /\ got' = [got EXCEPT ![c] = c]
           ELSE st' = [st EXCEPT ![c] = "lost"] /\ UNCHANGED got
-  /\ UNCHANGED <<pending, runs, queue>>
+  /\ UNCHANGED <<up, pending, runs, queue>>
 
 Return(c) == /\ st[c] = "delivered"
              /\ st' = [st EXCEPT ![c] = "returned"] /\ pending' = pending \ {c}
-             /\ UNCHANGED <<runs, queue, wire, got>>
+             /\ UNCHANGED <<up, runs, queue, wire, got>>
 
-Next == (\E c \in Calls : Issue(c) \/ HandlerRun(c) \/ Enqueue(c) \/ Return(c)) \/ WriterEmit \/ ClientDispatch
+\* the connection is lost: what was on its way is gone
+ConnLost == /\ up /\ up' = FALSE /\ queue' = <<>> /\ wire' = <<>>
+            /\ st' = [c \in Calls |-> IF st[c] \in {"queued", "wire"} THEN "handled" ELSE st[c]]
+            /\ UNCHANGED <<pending, runs, got>>
+\* a call outstanding on a lost connection ends with an error
+Fail(c) == /\ ~up /\ st[c] \in {"sent", "handled"}
+           /\ st' = [st EXCEPT ![c] = "failed"] /\ pending' = pending \ {c}
+           /\ UNCHANGED <<up, runs, queue, wire, got>>
+\* the request had reached the server before the connection went: its handler may still run - once
+HandlerLate(c) == /\ st[c] = "failed" /\ runs[c] = 0 /\ runs' = [runs EXCEPT ![c] = 1]
+                  /\ UNCHANGED <<st, up, pending, queue, wire, got>>
+\* the defect: the transport re-sends the request over a new connection, unasked
+Resend(c) == /\ TransportResends /\ ~up /\ st[c] = "handled"
+             /\ st' = [st EXCEPT ![c] = "sent"] /\ up' = TRUE
+             /\ UNCHANGED <<pending, runs, queue, wire, got>>
+
+Next == \/ \E c \in Calls : Issue(c) \/ HandlerRun(c) \/ Enqueue(c) \/ Return(c) \/ Fail(c) \/ HandlerLate(c) \/ Resend(c)
+        \/ WriterEmit \/ ClientDispatch \/ ConnLost
 Fair == /\ WF_vars(WriterEmit) /\ WF_vars(ClientDispatch)
-        /\ \A c \in Calls : WF_vars(HandlerRun(c)) /\ WF_vars(Enqueue(c)) /\ WF_vars(Return(c))
+        /\ \A c \in Calls : WF_vars(HandlerRun(c)) /\ WF_vars(Enqueue(c)) /\ WF_vars(Return(c)) /\ WF_vars(Fail(c))
 Spec == Init /\ [][Next]_vars /\ Fair
 
 OwnAnswer == \A c \in Calls : got[c] \in {0, c}
 HandlerOnce == \A c \in Calls : runs[c] <= 1 /\ (st[c] = "returned" => runs[c] = 1)
-PendingExact == pending = {c \in Calls : st[c] \notin {"idle", "returned"}}
+PendingExact == pending = {c \in Calls : st[c] \notin {"idle", "returned", "failed"}}
+\* "nothing" is an outcome only of a call whose connection went away
+FailedOnlyWhenDown == \A c \in Calls : st[c] = "failed" => ~up
 NothingLost == \A c \in Calls : st[c] # "lost"
-EveryCallReturns == \A c \in Calls : (st[c] = "sent") ~> (st[c] = "returned")
+EveryCallReturns == \A c \in Calls : (st[c] = "sent") ~> (st[c] \in {"returned", "failed"})
 =============================================================================
